@@ -244,7 +244,25 @@ impl Token {
         // after a multi-line string the next token's column counts from the start of the string's LAST line
         (res is Ok && line_fresh(*old(self))) ==> pos_ok(*final(self)),
         res matches Ok(t) ==> t.col_begin == old(self).col_token_starts,""" % FRAME)
+    IM_PRE = "requires lexer_wf(*old(self)), old(self).cursor >= 1, old(self).cursor <= old(self).chars@.len(), old(self).col_token_starts <= 0x1FFF_FFFF, old(self).lineno_token_starts < 0x1FFF_FFFF,"
+    IM_INV = """invariant
+            lexer_wf(*self), same_source(*self, *old(self)), self.cursor >= old(self).cursor, self.cursor <= self.chars@.len(),
+            self.interpol_stack@ == old(self).interpol_stack@,
+            self.lineno_token_starts >= old(self).lineno_token_starts, self.lineno_token_starts - old(self).lineno_token_starts <= self.cursor - old(self).cursor,
+            self.col_token_starts <= 0x1FFF_FFFF,
+            old(self).col_token_starts <= 0x1FFF_FFFF, old(self).lineno_token_starts < 0x1FFF_FFFF,
+            s@.len() <= 1 + 2 * (self.cursor - old(self).cursor),
+            line_fresh(*old(self)) ==> line_fresh(*self),
+        decreases self.chars@.len() - self.cursor,"""
+    add('lex_interpolation_mid_', IM_PRE + """
+    ensures %s
+        (res is Ok && line_fresh(*old(self))) ==> line_fresh(*final(self)),""" % FRAME, loops=[(0, IM_INV)])
+    add('lex_interpolation_mid', IM_PRE + """
+    ensures %s
+        // after the tail of an interpolated string the next token's column is exact
+        (res is Ok && line_fresh(*old(self))) ==> pos_ok(*final(self)),""" % FRAME)
     unit.raw("}\n} // verus!\n")
+    run.sample({"function": "Lexer::lex_interpolation_mid", "ensures": "total (the interpolation stack is never popped below its sentinel), terminates; Ok: the next column is exact"})
     run.sample({"function": "Lexer::lex_multi_line_str", "ensures": "total, terminates; Ok: token reported at its first column; afterwards column == source chars since the start of the last line of the literal"})
     run.sample({"function": "Lexer::lex_single_str", "ensures": "total (no unwrap on None at end of input), terminates; Ok: the token is reported at the column where it begins and the column of the next token equals the source chars consumed on the line, whatever escapes the literal contains"})
     run.sample({"function": "Lexer::lex_raw_ident", "ensures": "total; terminates; Ok(t): t.col_begin == column at entry, column advances by exactly the source chars consumed; no newline swallowed"})
